@@ -119,6 +119,10 @@ extern ssize_t mpt_slice_write(MPT_STRUCT(slice) *sl, size_t nblk, const void *f
 			return _fast_append(sl, nblk, from, size);
 		}
 	}
+	/* total size must be representable */
+	if (nblk > (SIZE_MAX - sl->_len) / size) {
+		return MPT_ERROR(BadArgument);
+	}
 	/* get space for needed data size */
 	while (!(next = _mpt_buffer_alloc(sl->_len + nblk * size, 0))) {
 		if (!(nblk /= 2)) {
